@@ -171,7 +171,7 @@ func TestVerif_C13_FreeRunning(t *testing.T) {
 				case "reader":
 					ops = append(ops, rapid.SampledFrom([]string{"getclients", "range", "status", "stats", "gethistory", "getclient", "locked"}).Draw(t, "op"))
 				case "admin":
-					ops = append(ops, rapid.SampledFrom([]string{"lock", "unlock", "reload", "addhistory", "clearhistory", "updatedata"}).Draw(t, "op"))
+					ops = append(ops, rapid.SampledFrom([]string{"lock", "unlock", "reload", "addhistory", "addhistory", "addhistory", "clearhistory", "clearhistory-id", "clearhistory-user", "updatedata"}).Draw(t, "op"))
 				default:
 					ops = append(ops, rapid.SampledFrom([]string{"join", "leave", "join", "leave", "yield"}).Draw(t, "op"))
 				}
@@ -179,6 +179,17 @@ func TestVerif_C13_FreeRunning(t *testing.T) {
 			plans = append(plans, workerPlan{kind, ops})
 			kindsSeen[kind] = true
 		}
+		// the chat history starts empty, or at its capacity (where every addition shifts it in place)
+		prefill := rapid.SampledFrom([]int{0, 0, 47, 50, 50}).Draw(t, "historyPrefill")
+		if prefill > 0 {
+			if g, _ := group.Add(gname, nil); g != nil {
+				for i := 0; i < prefill; i++ {
+					u := "earlier"
+					g.AddToChatHistory(fmt.Sprintf("pre%d", i), fmt.Sprintf("src%d", i%3), &u, time.Now(), "", fmt.Sprintf("old %d", i))
+				}
+			}
+		}
+		var failure atomic.Value
 		var wg sync.WaitGroup
 		joined := make([]atomic.Bool, nworkers)
 		members := make([]group.Client, nworkers)
@@ -338,7 +349,23 @@ func TestVerif_C13_FreeRunning(t *testing.T) {
 						case "stats":
 							stats.GetGroups()
 						case "gethistory":
-							g.GetChatHistory()
+							// what a joining client's replay does: take the snapshot, then read it
+							// entry by entry outside the group lock
+							h := g.GetChatHistory()
+							render := func() string {
+								var sb strings.Builder
+								for _, e := range h {
+									fmt.Fprintf(&sb, "%s/%s/%v/%s/%v;", e.Id, e.Source, e.User != nil, e.Kind, e.Value)
+								}
+								return sb.String()
+							}
+							before := render()
+							for k := 0; k < 20; k++ {
+								runtime.Gosched()
+							}
+							if after := render(); after != before {
+								failure.CompareAndSwap(nil, fmt.Sprintf("a chat-history snapshot changed under its reader while other operations ran:\n was %s\n now %s", before, after))
+							}
 						case "getclient":
 							g.GetClient("w0")
 						case "locked":
@@ -370,6 +397,10 @@ func TestVerif_C13_FreeRunning(t *testing.T) {
 							g.AddToChatHistory(fmt.Sprint(i), id, &u, time.Now(), "", "hello")
 						case "clearhistory":
 							g.ClearChatHistory("", "")
+						case "clearhistory-id":
+							g.ClearChatHistory(fmt.Sprintf("pre%d", i), fmt.Sprintf("src%d", i%3))
+						case "clearhistory-user":
+							g.ClearChatHistory("", fmt.Sprintf("src%d", i%3))
 						case "updatedata":
 							g.UpdateData(map[string]any{"k": i})
 						}
@@ -385,6 +416,9 @@ func TestVerif_C13_FreeRunning(t *testing.T) {
 			}
 			c13fRec.Class("inconclusive_timeout")
 			return
+		}
+		if f := failure.Load(); f != nil {
+			t.Fatalf("C13: %s", f)
 		}
 		// final membership == workers whose last completed operation was a successful join.
 		// (clients kicked by autokick left on their own: exclude autokick groups from this check)
@@ -438,6 +472,7 @@ func TestVerif_C13_FreeRunning(t *testing.T) {
 		for k := range kindsSeen {
 			c13fRec.Class("worker_" + k)
 		}
+		c13fRec.ClassIf(prefill >= 50, "history_at_capacity")
 	})
 }
 
